@@ -279,6 +279,13 @@ def run_job(job):
                     with_ctx(mod.FNS[op["f"]], op["c"]).forget(op["a"])
                 except Exception as e:
                     ev["exc"] = type(e).__name__ + ": " + str(e)[:150]
+            elif name == "ForgetExc":          # memento(f, a, c).forget_exceptions_recursively()
+                try:
+                    mem_ = with_ctx(mod.FNS[op["f"]], op["c"]).memento(op["a"])
+                    if mem_ is not None:
+                        mem_.forget_exceptions_recursively()
+                except Exception as e:
+                    ev["exc"] = type(e).__name__ + ": " + str(e)[:150]
             elif name == "ForgetAll":
                 try:
                     mod.FNS[op["f"]].forget_all()
